@@ -202,3 +202,44 @@ def _check_slim_counter_1d(ctx, rule, S, counter, masks, what) -> bool:
     if ok:
         ctx.ob(rule, inst, True, detail={"counter": counter, "dims": 1})
     return ok
+
+
+def check_sub_counter(ctx, rule: str, S: Summary, sub_counter: str, slim_counter: str, masks: List[str], sub_size: str = "sub_size", shape=None) -> Optional[Tuple[Poly, Poly, Poly, Poly, Poly]]:
+    """Typestate of a sub-pixel counter: advanced by 1 once per (y1, x1) in `for y1 in range(sub): for x1 in range(sub)` nested in the
+    slim traversal, with sub = sub_size[slim counter (pre-increment)], guarded only by the mask; stores use its pre-increment value.
+    Returns the role atoms (y, x, y1, x1, sub) on success."""
+    f = S.func
+    inst = f"{f.key}:{sub_counter}"
+    incs = counter_increments(S, sub_counter)
+    if len(incs) != 1:
+        ctx.ob(rule, inst, False if incs else None, where=f, node=incs[1][4] if len(incs) > 1 else f.node,
+               message=f"sub-pixel counter '{sub_counter}' must be advanced exactly once (found {len(incs)})")
+        return None
+    v, op, guards, loops, node = incs[0]
+    sub = Poly.elem(sub_size, Poly.sym(slim_counter + "~"))
+    ok = op == "+=" and v == ONE and len(loops) == 4 and is_axis_loop(loops[0], masks, 0, shape) and is_axis_loop(loops[1], masks, 1, shape) \
+        and all(l.kind == "range" and l.lo == ZERO and l.step == ONE and l.hi == sub for l in loops[2:])
+    if not ok:
+        ctx.ob(rule, inst, False, where=f, node=node, construct="; ".join(repr(l) for l in loops),
+               message=f"'{sub_counter}' must advance by 1 inside 'for y1 in range(sub): for x1 in range(sub)' (sub = {sub_size}[{slim_counter}]) nested in the full slim traversal of the mask")
+        return None
+    a, b = Poly.sym(loops[0].var), Poly.sym(loops[1].var)
+    flat = real_guards(guards)
+    if len(flat) != 1 or not unmasked_guard(flat[0], masks, a, b):
+        ctx.ob(rule, inst, False, where=f, node=node, construct="; ".join(repr(c) for c in flat), message=f"'{sub_counter}' must be guarded by exactly the mask test at the loop indices")
+        return None
+    if not counter_init_zero(f, sub_counter, loops[0].node.lineno):
+        ctx.ob(rule, inst, False, where=f, node=loops[0].node, message=f"'{sub_counter}' is not initialised to 0 before the traversal")
+        return None
+    kat = Poly.sym(sub_counter + "~")
+    good = True
+    for s in S.stores:
+        uses = [i for i, x in enumerate(s.idx) if sub_counter + "~" in {at[1] for at in x.all_atoms() if at[0] == "s"}]
+        if uses and (any(s.idx[i] != kat for i in uses) or tuple(id(l) for l in s.loops) != tuple(id(l) for l in loops)):
+            ctx.ob(rule, inst + ":" + s.arr, False, where=f, node=s.node, construct=f"{s.arr}[{', '.join(map(repr, s.idx))}]",
+                   message=f"store indexed by '{sub_counter}' must use its pre-increment value inside the sub-pixel nest")
+            good = False
+    if not good:
+        return None
+    ctx.ob(rule, inst, True, detail={"sub_counter": sub_counter, "sub": repr(sub)})
+    return a, b, Poly.sym(loops[2].var), Poly.sym(loops[3].var), sub
